@@ -1,4 +1,5 @@
 import TrackVerif.GPMF.Lemmas
+import TrackVerif.GPMF.Tree
 import TrackVerif.GPMF.Spec
 import TrackVerif.GPMF.NumRat
 import TrackVerif.Generated.GPMF
@@ -18,30 +19,7 @@ theorem widths_match_spec :
     ∀ r ∈ Spec.expectedTables.types, r.formatter ≠ "formatStrings" → Spec.widthOf r.typ = some r.width := by
   decide
 
-/-! ### Encoding side (the writer of well-formed streams) -/
-
-def encodeHeader (h : Header) : Bytes :=
-  h.key ++ [h.typ, h.size, UInt8.ofNat (h.count / 256), UInt8.ofNat (h.count % 256)]
-
-def HeaderWF (h : Header) : Prop := h.key.length = 4 ∧ h.count < 65536
-
-theorem parseHeader_encode (h : Header) (hw : HeaderWF h) (rest : Bytes) :
-    parseHeader (encodeHeader h ++ rest) = some h := by
-  obtain ⟨hk, hc⟩ := hw
-  obtain ⟨key, typ, size, count⟩ := h
-  change count < 65536 at hc
-  match key, hk with
-  | [k0, k1, k2, k3], _ =>
-    simp only [encodeHeader, parseHeader, List.cons_append, List.nil_append]
-    have h1 : (UInt8.ofNat (count / 256)).toNat = count / 256 := by
-      simp; omega
-    have h2 : (UInt8.ofNat (count % 256)).toNat = count % 256 := by
-      simp
-    simp [h1, h2]
-    omega
-
-theorem encodeHeader_length (h : Header) (hw : HeaderWF h) : (encodeHeader h).length = 8 := by
-  simp [encodeHeader, hw.1]
+/-! ### Encoding side (the writer of well-formed streams: `GPMF/Tree.lean`) -/
 
 variable {α : Type} [FNum α]
 
@@ -56,31 +34,8 @@ theorem read_leaf_step (t : Tables) (fuel : Nat) (ctx : Ctx α) (pr : Bool) (lv 
           { f.level with children := f.level.children ++ [Elem.mk h h.total f.data [] f.aliases []] }
       | .err e => .err e
       | .panic p => .panic p
-      | .unmodelled => .unmodelled := by
-  have hlen := encodeHeader_length h hw
-  have hne : (encodeHeader h ++ raw ++ pad ++ rest).isEmpty = false := by
-    cases he : encodeHeader h with
-    | nil => simp [he] at hlen
-    | cons a as => simp
-  have hdrop : (encodeHeader h ++ raw ++ pad ++ rest).drop 8 = raw ++ pad ++ rest := by
-    rw [List.append_assoc, List.append_assoc, List.drop_append_of_le_length (by omega)]
-    simp [hlen, List.append_assoc]
-  conv => lhs; unfold readLevel
-  simp only [hne, Bool.false_eq_true, if_false]
-  rw [List.append_assoc, List.append_assoc, parseHeader_encode h hw]
-  simp only [hv, Bool.not_true, Bool.false_eq_true, if_false, hn]
-  rw [← List.append_assoc, ← List.append_assoc, hdrop]
-  have h1 : ¬ ((raw ++ pad ++ rest).length < h.dataSize) := by simp; omega
-  have h2 : (raw ++ pad ++ rest).take h.dataSize = raw := by
-    rw [List.append_assoc, List.take_append_of_le_length (by omega), List.take_of_length_le (by omega)]
-  have h3 : (raw ++ pad ++ rest).drop h.dataSize = pad ++ rest := by
-    rw [List.append_assoc, List.drop_append_of_le_length (by omega), List.drop_of_length_le (by omega)]
-    simp
-  have h4 : ¬ ((pad ++ rest).length < h.padding) := by simp; omega
-  have h5 : (pad ++ rest).drop h.padding = rest := by
-    rw [List.drop_append_of_le_length (by omega), List.drop_of_length_le (by omega)]; simp
-  simp only [h1, if_false, h2, h3, h4, h5]
-  cases formatElem t ctx pr lv h raw <;> rfl
+      | .unmodelled => .unmodelled :=
+  readLevel_leaf_step t fuel ctx pr lv h hw hv hn raw pad rest hraw hpad
 
 /-- a nested container: its children are read from exactly the `total` bytes it declares; the
     bytes that follow are parsed at the parent's level — as siblings, never as children -/
@@ -98,31 +53,36 @@ theorem siblings_not_children (t : Tables) (fuel : Nat) (ctx : Ctx α) (pr : Boo
           | .unmodelled => .unmodelled)
       | .err e => .err e
       | .panic p => .panic p
-      | .unmodelled => .unmodelled := by
-  have hlen := encodeHeader_length h hw
-  have hne : (encodeHeader h ++ inner ++ rest).isEmpty = false := by
-    cases he : encodeHeader h with
-    | nil => simp [he] at hlen
-    | cons a as => simp
-  have hdrop : (encodeHeader h ++ inner ++ rest).drop 8 = inner ++ rest := by
-    rw [List.append_assoc, List.drop_append_of_le_length (by omega)]
-    simp [hlen]
-  conv => lhs; unfold readLevel
-  simp only [hne, Bool.false_eq_true, if_false]
-  rw [List.append_assoc, parseHeader_encode h hw]
-  simp only [hv, Bool.not_true, Bool.false_eq_true, if_false, hn, if_true]
-  rw [← List.append_assoc, hdrop]
-  have h2 : (inner ++ rest).take h.total = inner := by
-    rw [List.take_append_of_le_length (by omega), List.take_of_length_le (by omega)]
-  have h1 : ¬ ((inner ++ rest).length < h.total) := by simp; omega
-  have h3 : (inner ++ rest).drop h.total = rest := by
-    rw [List.drop_append_of_le_length (by omega), List.drop_of_length_le (by omega)]; simp
-  simp only [h2, h1, if_false, h3, hpad, Nat.not_lt_zero, List.drop_zero]
-  cases readLevel t fuel ⟨if pr then [] else lv.md :: ctx.ancestors⟩ false inner ⟨[], none, []⟩ with
-  | ok clv => cases applyParsers t ctx pr lv h [] Raw.nil <;> rfl
-  | err e => rfl
-  | panic p => rfl
-  | unmodelled => rfl
+      | .unmodelled => .unmodelled :=
+  readLevel_container_step t fuel ctx pr lv h hw hv hn inner rest hinner hpad
+
+/-- **the whole tree**: for every forest of well-formed elements (any nesting depth, any types,
+    sizes, repeat counts, any padding bytes), whenever the reader accepts its encoding the tree it
+    returns has the same keys, types, sizes, repeats, nesting and order -/
+theorem reader_returns_the_written_tree (t : Tables) (ks : List KLV) (hw : KLV.WFL ks) (es : List (Elem α))
+    (h : readAll t (KLV.encodeL ks) = .ok es) : Elem.skelL es = KLV.skelL ks :=
+  readAll_tree t ks hw es h
+
+/-- … and a well-formed forest of elements without key parsers, whose values format (known type,
+    valid dates), IS accepted: the premise above is met by trees of every depth and width -/
+theorem plain_tree_accepted (t : Tables) (ks : List KLV) (hw : KLV.WFL ks) (hp : KLV.PlainL t ks) :
+    ∃ es : List (Elem α), readAll t (KLV.encodeL ks) = .ok es ∧ Elem.skelL es = KLV.skelL ks :=
+  readAll_plain t ks hw hp
+
+/-- non-vacuity: a two-level forest (a container with a 32-bit value and a padded string, then an
+    element with repeat 0) is well formed and plain for the GPMF tables -/
+def exForest : List KLV :=
+  [ .node ⟨[68, 69, 86, 67], 0, 1, 24⟩                                -- DEVC, 24 bytes of children
+      [ .leaf ⟨[65, 66, 67, 68], 76, 4, 1⟩ [0, 0, 1, 2] [],          -- ABCD  L 4×1
+        .leaf ⟨[84, 88, 84, 49], 99, 1, 3⟩ [104, 105, 0] [9] ],       -- TXT1  c 1×3 + 1 padding byte
+    .leaf ⟨[69, 77, 80, 84], 115, 2, 0⟩ [] [] ]                       -- EMPT  s 2×0
+
+example : KLV.WFL exForest := by
+  simp [exForest, KLV.WFL, KLV.WF, HeaderWF, Header.valid, Header.dataSize, Header.padding, Header.total,
+    KLV.encodeL, KLV.encode, encodeHeader, tNested, tCompressed]
+example : KLV.PlainL Spec.expectedTables exForest := by
+  simp only [exForest, KLV.PlainL, KLV.Plain, noParser]
+  decide
 
 /-- a stream that ends before all bytes declared by a container have been supplied is an error
     (even when what was supplied parses cleanly) -/
